@@ -193,6 +193,20 @@ def _user_defaultdict_config():
     return {".osyris/config_osyris.py": text.replace("    return library\n", extra, 1)}
 
 
+def _user_positions_config():
+    """A user configuration that writes the mesh coordinates and cell sizes in astronomical units (entries position, position_*, dx) and
+    leaves the one-letter entries x, y, z as they are."""
+    text = open(os.path.join(repo_root(), "src", "osyris", "config", "defaults.py")).read()
+    extra = (
+        '    for name in ("position", "position_*", "dx"):\n'
+        '        library[name] = length.to("au")\n'
+        "    return library\n"
+    )
+    if "    return library\n" not in text:
+        raise RuntimeError("harness: defaults.py has no 'return library' to extend")
+    return {".osyris/config_osyris.py": text.replace("    return library\n", extra, 1)}
+
+
 ENVIRONMENTS = {
     "python-O": {"flags": ["-O"]},
     "PYTHONOPTIMIZE=2": {"env": {"PYTHONOPTIMIZE": "2"}},
@@ -201,6 +215,7 @@ ENVIRONMENTS = {
     "NUMBA_DISABLE_JIT=1": {"env": {"NUMBA_DISABLE_JIT": "1"}},
     "user-constants": {"home_files": _user_constants_config},
     "user-units-defaultdict": {"home_files": _user_defaultdict_config},
+    "user-positions-in-au": {"home_files": _user_positions_config},
 }
 
 
